@@ -610,8 +610,9 @@ fn mapping_atomic_applicable_member_types_inner(
                 }
             }
 
-            let is_subtype = member_types.len() == atomic.vs.len();
-            if !is_subtype
+            // a requested key that is not a declared property falls under the index signature
+            let all_declared = values.iter().all(|l| atomic.vs.contains_key(l));
+            if !all_declared
                 && let Some(v) = &atomic.indexed_properties
                 && v.key.is_all_strings()
             {
